@@ -136,7 +136,7 @@ GVC_NOTE = 'gvc parses the real parser sources on every run; callee CONTRACTS (n
 REPLAY = dict(module='vx.replayeng', tier='thorough')
 PROPS['C01'] = dict(
     title='lossless tree',
-    units=['conv', 'derive', 'getstr', 'iter'],
+    units=['conv', 'derive', 'getstr', 'iter', 'loc'],
     engines=[dict(module='gvc.engine', args=dict(analyses=('faithful', 'nullable')))],
     shims=['A-nom', 'A-packrat', 'A-strconcat', 'A-node', 'A-vec', 'A-str'],
     design='DESIGN.md 3/C01',
@@ -191,7 +191,7 @@ PROPS['C17'] = dict(
 )
 PROPS['C08'] = dict(
     title='totality',
-    units=['pt', 'wrap', 'iter', 'conv', 'derive', 'getstr', 'arms', 'depth', 'bind', 'pphelp', 'display', 'prologue', 'split'],
+    units=['pt', 'wrap', 'iter', 'conv', 'derive', 'getstr', 'arms', 'depth', 'bind', 'pphelp', 'display', 'prologue', 'split', 'loc'],
     engines=[dict(module='gvc.engine', args=dict(analyses=('panics', 'faithful', 'nullable')))],
     shims=['A-btree', 'A-str', 'A-path/fs', 'A-node', 'A-vec', 'A-nom', 'A-glue'],
     design='DESIGN.md 3/C08',
